@@ -55,7 +55,7 @@ def worker(k):
         wt = "/tmp/reseed_%s" % name
         sh("git -C /repo worktree remove --force %s" % wt)
         rc, out = sh("git -C /repo worktree add -q --detach %s HEAD" % wt)
-        rc, out = sh("git apply %s/%s/%s/patch.diff" % (V, KIND, name), cwd=wt)
+        rc, out = sh("git apply %s/%s/%s/patch.diff || (git apply --3way %s/%s/%s/patch.diff && git reset -q)" % (V, KIND, name, V, KIND, name), cwd=wt)
         if rc != 0:
             with lock:
                 print("%-10s PATCH DOES NOT APPLY" % name); results[name] = "noapply"
